@@ -231,3 +231,82 @@ class GetFileinfoSizes(Contract):
             out.append(("later-members-of-a-solid-folder-have-no-packed-size", Implies(b["file_in_solid"] > 0, result[1] is None) if V.is_sym(b["file_in_solid"]) else True))
         out.append(("modifies-only-the-solid-flag-of-the-folder", bool(all(e.name == "solid" and e.recv is b["folder"] for e in sets))))
         return out
+
+
+@contract
+class HeaderRead(Contract):
+    """Header._read: a raw header is parsed directly; an encoded header is decoded ONCE (no nesting: the decoded bytes
+    must be a raw header), each of its folders is read from the packed area and - when the folder carries a CRC - the
+    decoded bytes are compared with it before they are parsed (C04); empty input means an empty archive"""
+
+    target = "py7zr.archiveinfo:Header._read"
+    props = ("C04", "C06", "C05")
+    abstract = True
+    opaque = ("helpers:calculate_crc32", "archiveinfo:HeaderStreamsInfo.retrieve", "archiveinfo:StreamsInfo.retrieve")
+    pure = ("calculate_crc32", "isinstance", "len", "bytearray")
+    noraise = ("isinstance", "len", "bytearray", "BytesIO", "write", "seek")
+    frame_preserving = ("isinstance", "len", "bytearray", "BytesIO", "write", "seek", "calculate_crc32", "read", "get_decompressor")
+    stable_attrs = ("unpackinfo", "packinfo", "folders", "packsizes", "packpos", "unpacksizes", "coders", "digestdefined", "crc", "_start_pos")
+
+    def setup(self, c):
+        return {"self_": c.opq("self"), "fp": c.opq("fp"), "buffer": c.opq("buffer"), "start_pos": c.opq("start_pos"), "password": c.opq("password")}
+
+    @property
+    def stmt_hooks(self):
+        import ast
+
+        def hook(c, st):
+            eng = c.eng
+            if len(eng.frames) == 1 and isinstance(st, ast.While) and "folder_data" in eng.frame.env:
+                # the decoded bytes of the folder are accumulated in a bytearray; their content is not modelled here
+                eng.frame.env["folder_data"] = c.opq("folder_data")
+            if len(eng.frames) == 1 and isinstance(st, ast.For) and "buffer2" in eng.frame.env and not isinstance(eng.frame.env["buffer2"], SOpq):
+                # the in-memory buffer that collects the decoded header: an opaque object here (its write calls are events)
+                eng.frame.env["buffer2"] = c.opq("buffer2")
+
+        return (hook,)
+
+    def isinstance_model(self, x, tn):
+        # Folder.unpacksizes is always a list (Folder.__init__ / UnpackInfo._retrieve_coders_info): the scalar fallback
+        # of Header._read is dead code and is not explored
+        return True
+
+    def raises(self):
+        return [RaiseSpec("Exception")]
+
+    def loops(self):
+        def noinv(c, Lp):
+            return []
+
+        def step(c, Lp):
+            c.eng.ghost["folder_iter_mark"] = len(c.eng.trace)
+            return []
+
+        def folder_asserts(c, Lp):
+            eng = c.eng
+            evs = eng.trace[Lp.trace_mark:]
+            folder = Lp.element(Lp.i)
+            crcs = [e for e in evs if e.kind == "pure" and e.name.endswith("calculate_crc32")]
+            writes = [e for e in evs if e.kind == "call" and e.name.endswith("write")]
+            flagged = truthy(attr(folder, "digestdefined"))
+            if crcs:
+                ok = eq(attr(folder, "crc"), crcs[-1].result)
+                same = bool(writes and crcs[-1].args and writes[-1].args and writes[-1].args[0] is crcs[-1].args[0])
+                return [("folder-crc-compared-before-the-bytes-are-used", ok), ("compared-bytes-are-the-parsed-bytes", same)]
+            return [("folder-crc-compared-before-the-bytes-are-used", Not(flagged))]
+
+        return {
+            "archiveinfo:Header._read#loop0": LoopSpec("for-folder", noinv, target="folder in streams.unpackinfo.folders", unfold_step=step, asserts=folder_asserts),
+            "archiveinfo:Header._read#loop1": LoopSpec("while-remaining", noinv, target="remaining > 0"),
+        }
+
+    def ensures(self, c, old, result, **b):
+        eng = c.eng
+        if eng.ctx_mode == "assume":
+            return []
+        dec = [e for e in eng.trace if e.kind == "call" and e.name.endswith("HeaderStreamsInfo.retrieve")]
+        parsed = [e for e in eng.trace if e.kind == "call" and e.name.endswith("_extract_header_info")]
+        return [
+            ("encoded-header-decoded-at-most-once", len(dec) <= 1),
+            ("header-parsed-at-most-once", len(parsed) <= 1),
+        ]
